@@ -511,6 +511,51 @@ def disjunct_leq_history(rng, hid, params=None):
     return h
 
 
+def wide_join_history(rng, hid, params=None):
+    """directed family (C04): SIX integer variables; the registers constrain DIFFERENT subsets of them (two or three variables each,
+    with nested / overlapping bounds on the shared ones), then join, widening, meet in both operand orders and inclusion tests
+    between operands and results.  Environments over different key sets exercise the map-merge code underneath the
+    non-relational domains (a binding missing on one side means top and must disappear from a join)."""
+    names = ["x", "y", "z", "w", "u", "v"]
+    ints = [1, 2, 3, 4, 5, 6]
+    vars_ = [{"n": n, "t": "int"} for n in names]
+    steps = []
+
+    def bound(r, v, lo, hi):
+        steps.append({"op": "stmt", "r": r, "s": {"op": "assume", "c": {"e": {"k": -hi, "t": [[1, v]]}, "r": "le"}}})
+        steps.append({"op": "stmt", "r": r, "s": {"op": "assume", "c": {"e": {"k": lo, "t": [[-1, v]]}, "r": "le"}}})
+    shared = rng.sample(ints, rng.choice([1, 1, 2]))
+    rest = [v for v in ints if v not in shared]
+    rng.shuffle(rest)
+    na = rng.choice([1, 2])
+    only_a, only_b = rest[:na], rest[na:na + rng.choice([1, 2])]
+    for v in shared:
+        if rng.random() < 0.6:       # register 1 has the larger value on the shared variable
+            bound(1, v, -1, 1)
+            bound(2, v, rng.choice([-1, 0]), rng.choice([0, 1]))
+        else:
+            bound(1, v, rng.choice([-1, 0]), 0)
+            bound(2, v, 0, rng.choice([0, 1]))
+    for v in only_a:
+        k = rng.randint(-1, 1)
+        bound(1, v, k, k)
+    for v in only_b:
+        k = rng.randint(-1, 1)
+        bound(2, v, k, rng.choice([k, 1]))
+    a, b = (1, 2) if rng.random() < 0.5 else (2, 1)
+    steps.append({"op": rng.choice(["join", "join", "widen", "meet"]), "r": 3, "a": a, "b": b})
+    steps += [{"op": "leq", "r": 0, "a": 1, "b": 3}, {"op": "leq", "r": 0, "a": 2, "b": 3}, {"op": "leq", "r": 0, "a": 3, "b": 1}]
+    steps.append({"op": rng.choice(["join", "widen"]), "r": 3, "a": b, "b": a})
+    steps += [{"op": "leq", "r": 0, "a": 1, "b": 3}, {"op": "leq", "r": 0, "a": 2, "b": 3}]
+    if rng.random() < 0.5:
+        steps.append({"op": "join", "r": 1, "a": 1, "b": 2, "inplace": 1})
+        steps.append({"op": "leq", "r": 0, "a": 2, "b": 1})
+    h = {"id": hid, "vars": vars_, "nregs": 3, "steps": steps, "stutter": 0}
+    if params:
+        h["params"] = params
+    return h
+
+
 def is_nontrivial(h):
     """rule used in the evidence: >= 1 relational assume/assign and >= 1 lattice operation"""
     rel = lat = False
